@@ -48,7 +48,7 @@ def err_kind(msg):
             return k
     return 'E_syn'
 
-def run_real(cases, repeat=1, workdir=None):
+def run_real(cases, repeat=1, workdir=None, driver=None):
     """cases: list of (id, rust source).  returns {id: (class, payload)}; crashes / hangs are
     attributed to the case that was running (class CRASH / TIMEOUT)."""
     out = {}
@@ -60,7 +60,7 @@ def run_real(cases, repeat=1, workdir=None):
         with open(path, 'w') as f:
             for cid, src in todo:
                 f.write('#CASE %s\n%s\n' % (cid, src))
-        cmd = [K1DRIVER, path]
+        cmd = [driver or K1DRIVER, path]
         if repeat > 1:
             cmd += ['--repeat', str(repeat)]
         try:
